@@ -470,11 +470,44 @@ func rulesAtSearch(c *Ctx, r *Report, at *ssa.Function) {
 			search = cl
 		}
 	})
+	// the search done by a helper of the same shape (receiver, position) that returns the search result as it is
+	ss := s
+	var viaHelper *ssa.Call
+	if search == nil {
+		instrs(at, func(in ssa.Instruction) {
+			cl, ok := in.(*ssa.Call)
+			if !ok || search != nil {
+				return
+			}
+			h := cl.Call.StaticCallee()
+			if h == nil || h.Blocks == nil || !c.inModule(h) || len(h.Blocks) != 1 {
+				return
+			}
+			var hs *ssa.Call
+			instrs(h, func(in2 ssa.Instruction) {
+				if c2, ok := in2.(*ssa.Call); ok && fnIs(c2.Call.StaticCallee(), "sort", "Search") {
+					hs = c2
+				}
+			})
+			rt, _ := lastInstr(h.Blocks[0]).(*ssa.Return)
+			if hs == nil || rt == nil || len(rt.Results) != 1 || rt.Results[0] != ssa.Value(hs) || len(h.Params) != len(at.Params) {
+				return
+			}
+			for i, a := range cl.Call.Args {
+				if i >= len(at.Params) || a != ssa.Value(at.Params[i]) {
+					return
+				}
+			}
+			search, viaHelper = hs, cl
+			ss = newSymb(h)
+			r.analysed(fname(h))
+		})
+	}
 	if search == nil {
 		r.undecided("SEARCH", fname(at), "binary search", c.pos(at.Pos()), "no sort.Search found")
 		return
 	}
-	okN := s.expr(search.Call.Args[0]).String() == "builtin:len(load(P0.f0))"
+	okN := ss.expr(search.Call.Args[0]).String() == "builtin:len(load(P0.f0))"
 	okPred := false
 	predSeen := ""
 	if mc, ok := search.Call.Args[1].(*ssa.MakeClosure); ok {
@@ -495,6 +528,9 @@ func rulesAtSearch(c *Ctx, r *Report, at *ssa.Function) {
 	// result: at == 0 => nil ; else a copy of idx.idx[at-1].idxs (through a helper, or made and copied in place)
 	okZero, okPrev := false, true
 	sv := s.expr(search).String()
+	if viaHelper != nil {
+		sv = s.expr(viaHelper).String()
+	}
 	// every read of a stored set uses the breakpoint just before the search result
 	var sets []ssa.Value
 	instrs(at, func(in ssa.Instruction) {
